@@ -1,6 +1,6 @@
 """C04R - statement-level Coq model of read_oas (OASIS reader) tied to the real reader; merged into C04 / C02."""
 CONFIG = {
-    "manifest": {'level_text': "Statement-level Gallina model read_oas_model of gdstk's read_oas on uncompressed byte streams (header / START, the record switch 0-34 with every modal variable the C++ keeps, name tables with implicit / explicit numbers, references resolved at END, sticky stream errors with the values the helpers return after a failure, undefined behaviour as Crash). Theorem oas_reader_accepts_spec_partial: for EVERY byte stream accepted by the restricted strict decoder cov_oas_decode (a sub-decoder of spec_oas_decode: cov_refines_spec) the reader model returns Ok (view L); per-record lemmas relate every dec_<record> of OasisSpec.v to the reader's branch through modal_rel. The statement for all of spec_oas_decode is refuted by explicit witnesses (findings).", 'level_note': "The reader model is tied to the code by the differential run only (identical dump text on valid and malformed streams). Where the model says Crash the C++ has undefined behaviour and the comparison accepts any implementation result; Hang / Crash from memory exhaustion use fixed thresholds.", 'technique': 'Coq proof of reader-vs-strict-decoder agreement on all covered streams + differential run of the extracted reader model against read_oas on encoder-generated, gdstk-written and malformed streams'},
+    "manifest": {'level_text': "Statement-level Gallina model read_oas_model (coq/OasisRead.v) of gdstk's read_oas on uncompressed byte streams: header / START, the record switch 0-34 with every modal variable the C++ keeps (never reset at CELL except positions and xy-mode), name tables with implicit / explicit numbers, next_property targets, references and unfinished property names / values resolved at END, sticky stream errors with the values the helpers return after a failure, undefined behaviour as Crash. Theorem oas_reader_accepts_spec_partial (closed under the global context): for EVERY byte stream bs, spec_oas_decode bs = Some L and covered bs imply read_oas_model bs = Ok (view L), where covered bs := cov_oas_decode bs <> None and cov_oas_decode is a restriction of the strict decoder (cov_refines_spec) by the conditions (c1)-(c8) listed in OasisRead.v. Per-record theorems reader_rectangle / polygon / path / trapezoid / ctrapezoid / circle / text / placement / property / last_property relate every covered dec_<record> to the reader's branch through modal_rel; reader_repetition, reader_point_list, reader_end for the helpers and the END resolution. The unrestricted statement is refuted by nine explicit witnesses (oas_reader_accepts_spec_refuted_*), each confirmed on the real reader.", 'level_note': "The reader model is tied to the code by the differential run only (identical dump text on valid and malformed streams) and by the regenerated CTRAPEZOID table / enum constants. Where the model says Crash the C++ has undefined behaviour and the comparison accepts any implementation result; Hang / Crash from memory exhaustion use fixed thresholds (allocation of 2^36 bytes fails, 2^26 failing iterations do not finish). CBLOCK is outside the model.", 'technique': 'Coq proof of reader-vs-strict-decoder agreement on all covered streams (simulation between the decoder state and the reader state, END resolution included) + differential run of the extracted reader model against read_oas on encoder-generated, reader-grammar-directed random, gdstk-written and malformed streams + extracted covered decoder as S-line oracle'},
     "prop_file": "Properties_C04R",
     "extract_file": "Extract_C04R",
     "extracted": ["c04r"],
@@ -13,9 +13,12 @@ CONFIG = {
              "explicit before or after use, PROPERTY / LAST_PROPERTY); gdstk = files written by write_oas under all option words "
              "and deflate levels with CBLOCKs spliced out; trunc = prefixes of small valid streams (every offset of the first "
              "bases); flip = one byte replaced; badrec = a record byte replaced (START out of place, XNAME..XGEOMETRY, CBLOCK, "
-             "unknown ids); dangle = a name-table record removed; cut / dup = a record removed / duplicated. When the strict decoder "
-             "accepts a covered stream the driver also prints S = dump of view(L). Non-trivial: streams longer than the 14-byte "
-             "header; distinct = distinct byte strings"),
+             "unknown ids); dangle = a name-table record removed; cut / dup = a record removed / duplicated; rand = reader-grammar-"
+             "directed random records (random info bytes followed by exactly the fields they demand, all repetition / point-list / "
+             "compact-trapezoid / property-value types incl. unknown ones, layers above 2^32, properties after every kind of name "
+             "record and after LAYERNAME). When the covered strict decoder accepts the stream the driver also prints S = dump of "
+             "view(L) (the claim of oas_reader_accepts_spec_partial, checked on the real reader). Non-trivial: streams longer than "
+             "the 14-byte header; distinct = distinct byte strings"),
     "trusted": ["harness/c04r.cpp dump_lib and ocaml/c04r_driver.ml dump: canonical text, circle recognition (a polygon of n >= 5 "
                 "vertices on the circle ellipse() samples is printed as circle cx cy r), double conversion of reals",
                 "harness/oas_scan.hpp (CBLOCK splicing, record offsets for the malformed cases), harness/oas_encoder.hpp"],
